@@ -62,7 +62,7 @@ Opaque mon_run.
 Definition closedish (m : mstate) : bool :=
   match m with MClosed | MLost | MConn true | MOpen true => true | _ => false end.
 
-Definition is_cdisc (e : cev) : bool := match e with CDisc _ => true | _ => false end.
+Definition is_cdisc (e : cev) : bool := match e with CDisc _ _ => true | _ => false end.
 Definition has_disc (l : list cev) : bool := existsb is_cdisc l.
 
 (* the invariant tying the socket state to the monitor state *)
@@ -74,7 +74,7 @@ Definition Core (w : ws) : Prop :=
      | Closed => closedish m = true \/ handed w = true
      end
   /\ (flag w <> None -> handed w = true)
-  /\ (has_disc (queue w) = true \/ (exists c, hand w = Some (CDisc c)) -> handed w = true).
+  /\ (has_disc (queue w) = true \/ (exists c r, hand w = Some (CDisc c r)) -> handed w = true).
 
 (* a receiver that was stopped while the socket stayed ACCEPTED: a close has been attempted
    (and failed with an unrecognised error) or the client's disconnect has been handed over *)
@@ -87,7 +87,7 @@ Definition Legal (c : cfg) (w : ws) : Prop := Core w /\ Stop c w.
 Lemma core_init cl fl : Core (ws0 cl fl).
 Proof.
   exists (MConn false). Transparent mon_run. cbn. Opaque mon_run.
-  repeat split; eauto; try congruence. intros [H|[c H]]; discriminate.
+  repeat split; eauto; try congruence. intros [H|[c [r H]]]; discriminate.
 Qed.
 
 Ltac dw w := destruct w as [st0 cc q h fl pu cl fa tr hd]; cbn in *.
